@@ -37,8 +37,8 @@ M = [
      '        except BaseException as exc:\n            if trace_driver is not None:\n                trace_driver.on_pipeline_end(\n                    run_token, {"status": "error", "error": str(exc)}\n                )\n            raise\n',
      '        except BaseException:\n            raise\n'),
     ("c06_no_close_on_error", "C06", ORCH,
-     '            if trace_driver is not None:\n                trace_driver.on_pipeline_end(run_token, {"status": "ok"})\n',
-     '            if trace_driver is not None:\n                trace_driver.on_pipeline_end(run_token, {"status": "ok"})\n                trace_driver.flush()\n                trace_driver.close()\n                trace_driver = None\n'),
+     '            if trace_driver is not None:\n                trace_driver.flush()\n                trace_driver.close()\n\n        return Payload(data, context)',
+     '            if trace_driver is not None:\n                trace_driver.flush()\n                if sys.exc_info()[0] is None:\n                    trace_driver.close()\n\n        return Payload(data, context)'),
     ("c06_error_ser_says_succeeded", "C06", ORCH,
      '                        ser = self._make_ser_record(\n                            status="error",',
      '                        ser = self._make_ser_record(\n                            status="completed",'),
@@ -82,7 +82,7 @@ M = [
      '            tags={"node_ref": fqcn, "ordinal": len(self._last_nodes) + id(self) % 7},'),
     ("c10_digest_of_identity", "C10", ORCH,
      '                summary["sha256"] = sha256_bytes(serialize(data))',
-     '                summary["sha256"] = sha256_bytes(serialize(data) + str(id(type(data)) % 3).encode() * (id(data) % 2))'),
+     '                summary["sha256"] = sha256_bytes(serialize(data) + b"#" * ((id(data) >> 4) % 2))'),
     ("c10_revert_canonical_copy", "C10", ORCH,
      '            canonical = dict(canonical)\n            canonical["nodes"] = [dict(n) for n in canonical.get("nodes", [])]\n',
      ''),
@@ -143,7 +143,7 @@ M = [
      '                    if not result_ctx.keys():\n                        result_ctx.set_value("job_id", job_id)\n'),
     ("c15_master_resolves_fifo", "C15", QO,
      '                jid = msg.context.get_value("job_id")\n',
-     '                jid = msg.context.get_value("job_id")\n                if jid not in self.pending_futures and self.pending_futures:\n                    jid = next(iter(self.pending_futures))\n'),
+     '                jid = next(iter(self.pending_futures), msg.context.get_value("job_id"))\n'),
     ("c15_revert_failure_status", "C15", WK,
      '                        transport.publish(\n                            f"jobs.{job_id}.status",\n                            data=None,\n                            context=failure_ctx,',
      '                        transport.publish(\n                            f"jobs.{job_id}.failed",\n                            data=None,\n                            context=failure_ctx,'),
@@ -206,6 +206,8 @@ M = [
      '        self._last_nodes = list(nodes)\n            _NODE_CACHE.setdefault(id(self), []).append(nodes)\n'),
 ]
 EXTRA_DEFS = {
+    "c06_no_close_on_error": (ORCH, "import time\nimport uuid\n", "import sys\nimport time\nimport uuid\n"),
+    "c06_revert_construction_fix": (ORCH, "        trace_active = (\n", "        nodes, node_defs = self._instantiate_nodes(resolved_spec, logger)\n        self._last_nodes = list(nodes)\n\n        trace_active = (\n"),
     "c15_shared_context_between_jobs": (QO, 'PipelineConfig = Union[Pipeline, List[Dict[str, Any]], str]\n', 'PipelineConfig = Union[Pipeline, List[Dict[str, Any]], str]\n_EMPTY_CONTEXT = ContextType()\n'),
     "c18_revert_weak_registry": (SC, '_REGISTRY_LOCK = threading.Lock()\n', '_REGISTRY_LOCK = threading.Lock()\n_KEEPALIVE: list = []\n'),
     "c18_history_of_pipeline_starts": (ORCH, 'T = TypeVar("T")\n', 'T = TypeVar("T")\n_RECENT_RUNS: list = []\n'),
@@ -293,12 +295,20 @@ def run(ids=None, skip_tests=False) -> None:
                 continue
             entry = {"property": prop, "applies": True}
             if not skip_tests:
-                t = subprocess.run(["/venv/bin/python", "-m", "pytest", "-q", "-p", "no:cacheprovider", "-n", "8", "--timeout=900",
+                t = subprocess.run(["/venv/bin/python", "-m", "pytest", "-q", "-p", "no:cacheprovider", "-n", "8", "--timeout=900", "-rf",
                                     "--deselect", "tests/test_export_ontology.py::test_export_framework_ontology_script"],
                                    cwd=repo, env=dict(os.environ, PYTHONPATH=repo), capture_output=True, text=True)
                 tail = t.stdout.strip().splitlines()[-1] if t.stdout.strip() else ""
                 entry["tests_pass"] = t.returncode == 0
                 entry["tests_tail"] = tail
+                if t.returncode != 0:
+                    failed = [ln.split()[1] for ln in t.stdout.splitlines() if ln.startswith("FAILED ")]
+                    entry["tests_failed"] = failed[:6]
+                    if failed and len(failed) <= 5:
+                        t2 = subprocess.run(["/venv/bin/python", "-m", "pytest", "-q", "-p", "no:cacheprovider", "--timeout=900"] + failed,
+                                            cwd=repo, env=dict(os.environ, PYTHONPATH=repo), capture_output=True, text=True)
+                        entry["tests_pass"] = t2.returncode == 0
+                        entry["tests_rerun_serial"] = t2.returncode == 0
             env = dict(os.environ, SVSIM_REPO=repo, SVSIM_SCRATCH=os.path.join(root, "scratch"), SVSIM_OUT=os.path.join(root, "out"),
                        SVSIM_NO_SHRINK="1")
             c = subprocess.run([os.path.join(HERE, "sv"), "check", prop, "--tier", "quick"], env=env, capture_output=True, text=True)
